@@ -697,13 +697,36 @@ def substitute_new_temporaries(fn, known_locals: set[str]) -> int:
             while i < len(block):
                 st = block[i]
                 if isinstance(st, ast.Assign) and len(st.targets) == 1 and isinstance(st.targets[0], ast.Tuple) and isinstance(st.value, ast.Tuple) \
-                        and len(st.targets[0].elts) == len(st.value.elts) and all(isinstance(t, ast.Name) and t.id not in known_locals for t in st.targets[0].elts) \
+                        and len(st.targets[0].elts) == len(st.value.elts) and all(isinstance(t, ast.Name) for t in st.targets[0].elts) \
+                        and any(t.id not in known_locals for t in st.targets[0].elts) \
                         and all(_pure(v) for v in st.value.elts) \
                         and not ({t.id for t in st.targets[0].elts} & {n.id for v in st.value.elts for n in ast.walk(v) if isinstance(n, ast.Name)}):
                     block[i:i + 1] = [ast.copy_location(ast.Assign(targets=[t], value=v), st) for t, v in zip(st.targets[0].elts, st.value.elts)]
                     i += len(st.value.elts)
                     continue
                 i += 1
+    # `known = new_name` where new_name is an unknown local and `known` has no other binding: new_name was just another name
+    # for what the reference calls `known` -> rename it and drop the alias
+    for node in list(_walk_no_defs(fn)):
+        for fld in ("body", "orelse", "finalbody"):
+            block = getattr(node, fld, None)
+            if not (isinstance(block, list) and block and isinstance(block[0], ast.stmt)):
+                continue
+            for st in list(block):
+                if isinstance(st, ast.Assign) and len(st.targets) == 1 and isinstance(st.targets[0], ast.Name) and isinstance(st.value, ast.Name):
+                    a, b = st.targets[0].id, st.value.id
+                    if a in known_locals and b not in known_locals and a != b:
+                        stores_a = [n for n in ast.walk(fn) if isinstance(n, ast.Name) and n.id == a and isinstance(n.ctx, (ast.Store, ast.Del))]
+                        uses_a_before = [n for n in ast.walk(fn) if isinstance(n, ast.Name) and n.id == a and n is not st.targets[0] and getattr(n, "lineno", 0) < st.lineno]
+                        is_param = any(x.arg == b for x in ast.walk(fn) if isinstance(x, ast.arg))
+                        if len(stores_a) == 1 and not uses_a_before and not is_param:
+                            for n in ast.walk(fn):
+                                if isinstance(n, ast.Name) and n.id == b:
+                                    n.id = a
+                            block.remove(st)
+                            if not block:
+                                block.append(ast.Pass())
+                            n_done += 1
     changed = True
     while changed:
         changed = False
